@@ -28,7 +28,8 @@ RULE = ("(a) seeded naming designs: 13 declaration slots filled from a pool of V
         "std_logic_1164/numeric_std/standard names, names differing only in case, underscore-decorated names, "
         "suffix-collision families (x, x1, x2, ...) and the compiler's own generated names; optionally "
         "additional_reserved_names / reserved_names; (b) all depth-1 operator x type-pair expressions with run-time and "
-        "constant operands + random trees; (c) generated sequential / coroutine / reset designs; (d) un-clocked processes. "
+        "constant operands + random trees; (c) generated sequential / coroutine / reset designs; (d) un-clocked processes; (e) selectors that are elements / slices / "
+        "views of Array objects in select_with, std.select and match. "
         "Every emitted text is parsed, elaborated and statically checked.  distinct_nontrivial = distinct accepted "
         "designs (by text digest) that were fully checked.")
 ASSUMPTIONS = ["legality is judged by vcheck's rule set for the emitted VHDL subset (VHDL-93/2002); no reference analyser "
